@@ -765,6 +765,55 @@ func (p *Prog) resolveRenames() {
 		funcAlias[f] = f.Pkg.Pkg.Name() + "." + fc.Target
 		p.renamed = append(p.renamed, fmt.Sprintf("%s is now called %s", p.shortKey(key), f.RelString(f.Pkg.Pkg)))
 	}
+	// a function literal that was given a name: the contract of closure F$k is attached to the only new, contract-less
+	// top-level function of the package whose parameter names are exactly the closure's recorded parameters and
+	// captured variables (they became parameters)
+	for _, key := range keys {
+		fc := p.cs.Funcs[key]
+		if fc.Variant != "" || !strings.Contains(fc.Target, "$") || p.funcs[key] != nil {
+			continue
+		}
+		rs, ok := p.sigs[p.shortKey(key)]
+		if !ok {
+			continue
+		}
+		want := map[string]bool{}
+		for _, n := range rs.Params {
+			want[n] = true
+		}
+		for _, n := range rs.FreeVars {
+			want[n] = true
+		}
+		if len(want) == 0 {
+			continue
+		}
+		var cands []*ssa.Function
+		for k, f := range p.funcs {
+			if f.Pkg == nil || f.Pkg.Pkg.Path() != fc.PkgPath || f.Parent() != nil || len(f.Params) != len(want) {
+				continue
+			}
+			if _, has := p.cs.Funcs[k]; has {
+				continue
+			}
+			if _, recorded := p.sigs[p.shortKey(k)]; recorded {
+				continue
+			}
+			all := true
+			for _, prm := range f.Params {
+				all = all && want[prm.Name()]
+			}
+			if all {
+				cands = append(cands, f)
+			}
+		}
+		if len(cands) == 1 {
+			f := cands[0]
+			p.funcs[key] = f
+			p.byFn[f] = key
+			funcAlias[f] = f.Pkg.Pkg.Name() + "." + fc.Target
+			p.renamed = append(p.renamed, fmt.Sprintf("function literal %s is now the function %s", p.shortKey(key), f.RelString(f.Pkg.Pkg)))
+		}
+	}
 	// closures of renamed functions
 	for oldKey, newKey := range renamedPrefix {
 		for k, f := range p.funcs {
